@@ -567,9 +567,10 @@ class ServerDir:
         r.close()
         self.template = {str(p.relative_to(self.path)) for p in (self.path / "objects").rglob("*") if p.is_file()}
 
-    def reset(self, refs: dict, extra_store=(), packed=(), loose_after=None):
+    def reset(self, refs: dict, extra_store=(), packed=(), loose_after=None, symrefs=None, head=None):
         """refs: {name: id}; `packed`: pack all refs present so far into packed-refs (with peeled header) and then
-        write `loose_after` {name: id} as loose refs on top."""
+        write `loose_after` {name: id} as loose refs on top; `symrefs` {name: target} are written as symbolic refs;
+        `head` re-points HEAD (default refs/heads/main, as `init --bare` leaves it)."""
         from dulwich.repo import Repo
         for p in list((self.path / "objects").rglob("*")):
             if p.is_file() and str(p.relative_to(self.path)) not in self.template:
@@ -593,7 +594,15 @@ class ServerDir:
             r.refs.pack_refs(all=True)
             for n, v in (loose_after or {}).items():
                 _write_ref(self.path, n, v)
+        for n, t in (symrefs or {}).items():
+            _write_ref(self.path, n, SYMREF + t)
+        (self.path / "HEAD").write_bytes(SYMREF + (head or b"refs/heads/main") + b"\n")
         r.close()
+
+    def reset_state(self, st: dict):
+        enc = lambda d: {k.encode("latin-1"): v.encode("latin-1") for k, v in (d or {}).items()}  # noqa: E731
+        self.reset(enc(st["refs"]), extra_store=st.get("extra", ()), packed=st.get("packed"), loose_after=enc(st.get("loose_after")),
+                   symrefs=enc(st.get("symrefs")), head=st["head"].encode("latin-1") if st.get("head") else None)
 
     def open(self):
         from dulwich.repo import Repo
@@ -606,11 +615,24 @@ def _write_ref(root: Path, name: bytes, value: bytes):
     p.write_bytes(value + b"\n")
 
 
-def read_refs(repo) -> dict:
-    """All refs under refs/ as raw stored values (no HEAD)."""
+SYMREF = b"ref: "
+
+
+def resolve(refs: dict, name: bytes, depth: int = 6):
+    """(last name of the symref chain, object id or None) in a raw refs dict — the harness's own reading, not dulwich's"""
+    for _ in range(depth):
+        v = refs.get(name)
+        if v is None or not v.startswith(SYMREF):
+            return name, v
+        name = v[len(SYMREF):]
+    return name, None
+
+
+def read_refs(repo, head: bool = False) -> dict:
+    """All refs under refs/ as raw stored values (symbolic refs as b"ref: <target>"); HEAD only on request."""
     out = {}
     for n in repo.refs.allkeys():
-        if n == b"HEAD":
+        if n == b"HEAD" and not head:
             continue
         v = repo.refs.read_ref(n)
         if v is not None:
@@ -801,15 +823,27 @@ def canon_real_wire(case, obs, post_refs, repo) -> str:
     return f"raised={raised} report={report} parsed={parsed} refs={refs}"
 
 
-def canon_model_wire(line: str) -> tuple[str, dict]:
+def canon_model_wire(line: str, case=None) -> tuple[str, dict]:
     d = dict(tok.split("=", 1) for tok in line.split(" "))
-    refs = sorted(d["refs"].split(",")) if d["refs"] != "-" else []
+    refs = sorted(d["refs"].split(","), key=lambda it: unhx(it.split("=")[0])) if d["refs"] != "-" else []
     parsed = d["parsed"]
+    # commanded names back in place of the reduced ones (status entries are positional)
+    ren = []
+    if case is not None and case.get("_mnames"):
+        ren = [(hx(m.encode("latin-1")), hx(c[2].encode("latin-1"))) for c, m in zip(case["cmds"], case["_mnames"])]
+    if any(a != b for a, b in ren) and d["report"] not in ("none", "-"):
+        parts = d["report"].split(";")
+        for i, (a, b) in enumerate(ren):
+            if a != b and 1 + i < len(parts) and parts[1 + i] != "flush":
+                parts[1 + i] = parts[1 + i].replace("20" + a, "20" + b, 1)
+        d["report"] = ";".join(parts)
     if parsed.startswith("ok:"):
         # python dict semantics: a later entry for the same name overwrites the value, keeps the position
         seen = {}
-        for it in ([] if parsed == "ok:-" else parsed[3:].split(",")):
+        for i, it in enumerate([] if parsed == "ok:-" else parsed[3:].split(",")):
             k, v = it.split("=")
+            if i < len(ren) and ren[i][0] == k:
+                k = ren[i][1]
             seen[k] = v
         parsed = "ok:" + (",".join(f"{k}={v}" for k, v in seen.items()) or "-")
     report = d["report"]
@@ -828,8 +862,26 @@ def model_line_wire(case, pre_refs, pre_store_ids, unpack) -> str:
     store = lst([hx(i) for i in pre_store_ids])
     hooks = lst([f"{hx(k.encode('latin-1'))}={hx(v.encode('latin-1'))}" for k, v in case.get("hooks", {}).items()])
     faults = lst([f"{hx(k.encode('latin-1'))}=" + ";".join(hx(x) for x in fault_mro(v)) for k, v in case.get("faults", {}).items()])
-    cmds = lst([f"{hx(c[0].encode())}:{hx(c[1].encode())}:{hx(c[2].encode('latin-1'))}" for c in case["cmds"]])
+    mnames = reduce_cmds([(c[2].encode("latin-1"), c[1].encode() == ZERO40) for c in case["cmds"]], pre_refs)
+    cmds = lst([f"{hx(c[0].encode())}:{hx(c[1].encode())}:{hx(mn)}" for c, mn in zip(case["cmds"], mnames)])
+    case["_mnames"] = [m.decode("latin-1") for m in mnames]
     return f"c06.wire {case.get('flags', 'coded')} {1 if case.get('pre') else 0} {caps} {unpack} {refs} {store} {hooks} {faults} {cmds}"
+
+
+def uses_head(case) -> bool:
+    st = case["state"]
+    return bool(st.get("head")) or any(c[-1] == "HEAD" or c[0] == "HEAD" for c in case["cmds"])
+
+
+def reduce_cmds(names_kinds: list, raw_refs: dict) -> list:
+    """Symbolic refs are not in the Lean model; they are reduced to it: an UPDATE through a symref acts on the last
+    name of the chain (set_if_equals follows), so the model is given that name; a DELETION compares the raw content
+    (remove_if_equals does not follow), so the model is given the commanded name, whose model value is the raw
+    b"ref: <target>" bytes.  Status entries are positional, so the commanded names are put back afterwards."""
+    out = []
+    for name, is_delete in names_kinds:
+        out.append(name if is_delete else resolve(raw_refs, name)[0])
+    return out
 
 
 def candidate_ids(case) -> list[bytes]:
@@ -843,11 +895,11 @@ def candidate_ids(case) -> list[bytes]:
 def run_wire_case(ctx, sd: ServerDir, case: dict, stream: str, lines: list, metas: list):
     """Set the server up, push, observe, run the oracle; queue the model line for the batch compare."""
     st = case["state"]
-    sd.reset({k.encode("latin-1"): v.encode() for k, v in st["refs"].items()}, extra_store=st.get("extra", ()),
-             packed=st.get("packed"), loose_after={k.encode("latin-1"): v.encode() for k, v in st.get("loose_after", {}).items()})
+    sd.reset_state(st)
     repo = sd.open()
+    hd = uses_head(case)
     try:
-        pre_refs = read_refs(repo)
+        pre_refs = read_refs(repo, hd)
         cands = candidate_ids(case)
         pre_store = [i for i in cands if in_store(repo, i)]
         obs = wire_push(repo, case)
@@ -855,9 +907,9 @@ def run_wire_case(ctx, sd: ServerDir, case: dict, stream: str, lines: list, meta
         repo.close()
     repo = sd.open()   # fresh instance: no caches from the handler's run
     try:
-        post_refs = read_refs(repo)
+        post_refs = read_refs(repo, hd)
         post_store = {i for i in cands if in_store(repo, i)}
-        post_missing = {n: v for n, v in post_refs.items() if not in_store(repo, v)}
+        post_missing = {n: v for n, v in post_refs.items() if not v.startswith(SYMREF) and not in_store(repo, v)}
     finally:
         repo.close()
     pk = case.get("pack", {"idx": [], "variant": "ok"})
@@ -890,7 +942,7 @@ def oracle_wire(ctx, stream, case, pre_refs, pre_store, obs, post_refs, post_mis
     brief = {"case": case}
 
     def reason(old, new, name):
-        cur = pre_refs.get(name, ZERO40)
+        cur = resolve(pre_refs, name)[1] or ZERO40
         bad = [i for i, c in enumerate(cmds) if faults.get(c[2]) == "format"]
         if bad and obs["raised"] and obs["raised"][0] == "ref-error" and names.index(name) > bad[0]:
             return "bad-refname"      # never reached: the handler died on the invalid name before it
@@ -908,26 +960,40 @@ def oracle_wire(ctx, stream, case, pre_refs, pre_store, obs, post_refs, post_mis
         elif hits and obs["unpack_exc"] is not None:
             cls = "wire-ref-updated-after-failed-unpack"
         ctx.oracle_fail(stream, brief, f"after the push {n!r} names {v!r}, which the server's object store does not have", cls)
-    if len(set(names)) != len(names):
+    # what each command acts on: an update goes through symbolic refs (last name of the chain), a deletion names the
+    # ref itself.  The client names the value it was shown, i.e. the resolved one.
+    acts_on = [name if new == ZERO40 else resolve(pre_refs, name)[0] for _, new, name in cmds]
+    if len(set(names)) != len(names) or len(set(acts_on)) != len(acts_on):
         return   # several commands for one ref: only the correspondence and the store clause apply
+
+    def holds(refs, new, name):
+        """does `name` hold what the command asked for?"""
+        if new == ZERO40:
+            return name not in refs
+        return resolve(refs, name)[1] == new
+
+    def same(name, new=None):
+        """nothing the command could touch has changed (a deletion can only touch the name itself)"""
+        real = name if new == ZERO40 else resolve(pre_refs, name)[0]
+        return post_refs.get(name) == pre_refs.get(name) and post_refs.get(real) == pre_refs.get(real)
     applied = []
     for old, new, name in cmds:
-        pre, post = pre_refs.get(name), post_refs.get(name)
-        cur = pre if pre is not None else ZERO40
+        cur = resolve(pre_refs, name)[1] or ZERO40
+        post = post_refs.get(name) if new == ZERO40 else resolve(post_refs, name)[1]
         target = None if new == ZERO40 else new
         stale = cur != old
         rep_ok = observable and parsed_ok and name in statuses and statuses[name] is None
         if stale:
-            if post != pre:
+            if not same(name, new):
                 ctx.oracle_fail(stream, brief, f"{name!r}: current value {cur!r} differs from the old value named {old!r}, yet the ref changed to {post!r}",
                                 "wire-stale-old-applied")
             if rep_ok:
                 ctx.oracle_fail(stream, brief, f"{name!r}: current value {cur!r} differs from the old value named {old!r}, yet the push is reported ok (ref is {post!r})",
                                 "wire-stale-old-reported-ok")
         else:
-            if rep_ok and post != target:
+            if rep_ok and not holds(post_refs, new, name):
                 ctx.oracle_fail(stream, brief, f"{name!r}: reported ok but the ref holds {post!r}, not the requested {target!r}", "wire-ok-but-not-applied")
-            if observable and old != new and post == target and not rep_ok:
+            if observable and old != new and holds(post_refs, new, name) and not rep_ok:
                 cls = "wire-applied-but-not-reported"
                 if obs["raised"] and obs["raised"][0] == "ref-error" and any(v == "format" for v in faults.values()):
                     cls = "wire-bad-refname-aborts-push"
@@ -935,14 +1001,14 @@ def oracle_wire(ctx, stream, case, pre_refs, pre_store, obs, post_refs, post_mis
                     cls = "wire-status-unparseable"
                 ctx.oracle_fail(stream, brief, f"{name!r}: the ref now holds the requested {target!r} but no success was reported "
                                 f"(handler: {obs['raised']}, statuses: {obs['parsed']})", cls)
-        if post == target and not (pre == post):
+        if holds(post_refs, new, name) and not same(name, new):
             applied.append(name)
     if "atomic" in caps:
-        all_hold = all(post_refs.get(n) == (None if new == ZERO40 else new) for _, new, n in cmds)
+        all_hold = all(holds(post_refs, new, n) for _, new, n in cmds)
         none_changed = post_refs == pre_refs
         if not all_hold and not none_changed:
             for old, new, name in cmds:
-                if post_refs.get(name) != (None if new == ZERO40 else new):
+                if not holds(post_refs, new, name):
                     ctx.oracle_fail(stream, brief, f"atomic push applied {applied} but not {name!r}", "wire-atomic-partial-apply-" + reason(old, new, name))
 
 
@@ -1103,6 +1169,8 @@ def expand(case: dict) -> dict:
             return ZERO40.decode() if v == "@z" else cid(int(v[1:])).decode()
         return v
     c = json.loads(json.dumps(case))
+    if c.get("path") == "race":
+        return c
     for k in ("refs", "loose_after"):
         if k in c.get("state", {}):
             c["state"][k] = {n: e(v) for n, v in c["state"][k].items()}
@@ -1117,7 +1185,8 @@ def expand(case: dict) -> dict:
 def compare_wire_batch(ctx, lines, metas):
     outs = ctx.driver.batch(lines)
     for (stream, case, real, obs, post_store), mo in zip(metas, outs):
-        model, d = canon_model_wire(mo) if mo.startswith("raised=") else (mo, {})
+        model, d = canon_model_wire(mo, case) if mo.startswith("raised=") else (mo, {})
+        case.pop("_mnames", None)
         tags = case.get("tags", [])
         ctx.count(stream, json.dumps(case, sort_keys=True), True, None)
         for t in tags:
@@ -1188,7 +1257,7 @@ def local_push(sd: ServerDir, case: dict, ex: dict) -> dict:
     obs: dict = {"snap": None, "raised": None}
 
     def update_refs(refs):
-        obs["snap"] = {bytes(k): bytes(v) for k, v in refs.items() if k != b"HEAD"}
+        obs["snap"] = {bytes(k): bytes(v) for k, v in refs.items() if k != b"HEAD" or uses_head(case)}
         other = Repo(str(sd.path))           # the second pusher
         try:
             for op in case.get("racer", []):
@@ -1201,7 +1270,7 @@ def local_push(sd: ServerDir, case: dict, ex: dict) -> dict:
             other.close()
         r2 = Repo(str(sd.path))
         try:
-            obs["cur"] = read_refs(r2)
+            obs["cur"] = read_refs(r2, uses_head(case))
             obs["cur_store"] = [i for i in candidate_ids_local(case) if in_store(r2, i)]
         finally:
             r2.close()
@@ -1230,13 +1299,12 @@ def candidate_ids_local(case) -> list[bytes]:
 
 def run_local_case(ctx, sd: ServerDir, case: dict, ex: dict, stream: str, lines: list, metas: list):
     st = case["state"]
-    sd.reset({k.encode("latin-1"): v.encode() for k, v in st["refs"].items()}, extra_store=st.get("extra", ()),
-             packed=st.get("packed"), loose_after={k.encode("latin-1"): v.encode() for k, v in st.get("loose_after", {}).items()})
+    sd.reset_state(st)
     obs = local_push(sd, case, ex)
     repo = sd.open()
     try:
-        post_refs = read_refs(repo)
-        post_missing = {n: v for n, v in post_refs.items() if not in_store(repo, v)}
+        post_refs = read_refs(repo, uses_head(case))
+        post_missing = {n: v for n, v in post_refs.items() if not v.startswith(SYMREF) and not in_store(repo, v)}
         post_store = {i for i in candidate_ids_local(case) if in_store(repo, i)}
     finally:
         repo.close()
@@ -1247,6 +1315,7 @@ def run_local_case(ctx, sd: ServerDir, case: dict, ex: dict, stream: str, lines:
     def lst(xs):
         return ",".join(xs) or "-"
     snap, cur = obs["snap"], obs["cur"]
+    mnames = reduce_cmds([(c[0].encode("latin-1"), c[1].encode() == ZERO40) for c in case["cmds"]], cur)
     packids = sorted({o.id for i in case.get("pack", []) for o in pool()[i]})
     line = "c06.local {} {} {} {} {} {} {}".format(
         1 if case.get("atomic") else 0,
@@ -1255,7 +1324,7 @@ def run_local_case(ctx, sd: ServerDir, case: dict, ex: dict, stream: str, lines:
         lst([hx(n) for n in sorted(obs["packed"])]),
         lst([hx(i) for i in obs["cur_store"]]),
         lst([hx(i) for i in packids]),
-        lst([f"{hx(c[0].encode('latin-1'))}={hx(c[1].encode())}" for c in case["cmds"]]))
+        lst([f"{hx(mn)}={hx(c[1].encode())}" for c, mn in zip(case["cmds"], mnames)]))
     lines.append(line)
     # canonical real observation
     if obs["raised"]:
@@ -1267,7 +1336,7 @@ def run_local_case(ctx, sd: ServerDir, case: dict, ex: dict, stream: str, lines:
         status = ",".join(f"{hx(c[0].encode('latin-1'))}:{local_msg_kind(rs.get(c[0].encode('latin-1')), ex)}" for c in case["cmds"]) or "-"
     refs = ",".join(f"{hx(k)}={hx(v)}" for k, v in sorted(post_refs.items())) or "-"
     instore = ",".join("1" if c[1].encode() in post_store else "0" for c in case["cmds"]) or "-"
-    metas.append((stream, case, f"status={status} refs={refs} instore={instore}"))
+    metas.append((stream, case, f"status={status} refs={refs} instore={instore}", mnames))
     oracle_local(ctx, stream, case, obs, post_refs, post_missing)
     return obs, post_refs
 
@@ -1292,10 +1361,22 @@ def oracle_local(ctx, stream, case, obs, post_refs, post_missing, prefix="local"
         return
     rs = obs["ref_status"] or {}
     all_hold, untouched = True, post_refs == cur
+
+    def holds(refs, new, name):
+        if new == ZERO40:
+            return name not in refs
+        return resolve(refs, name)[1] == new
+
+    def same(name, new=None):
+        real = name if new == ZERO40 else resolve(cur, name)[0]
+        return post_refs.get(name) == cur.get(name) and post_refs.get(real) == cur.get(real)
+    acts_on = [name if new == ZERO40 else resolve(cur, name)[0] for name, new in cmds]
+    if len(set(acts_on)) != len(acts_on):
+        return          # two commands acting on one ref (one of them through a symbolic ref): correspondence only
     for name, new in cmds:
-        old = snap.get(name, ZERO40)          # the old value the client names (its snapshot)
-        pre, post = cur.get(name), post_refs.get(name)
-        c = pre if pre is not None else ZERO40
+        old = snap.get(name, ZERO40)          # the old value the client names (its snapshot, symrefs resolved)
+        c = resolve(cur, name)[1] or ZERO40
+        post = post_refs.get(name) if new == ZERO40 else resolve(post_refs, name)[1]
         target = None if new == ZERO40 else new
         if old == new:
             continue                           # not an update request (git drops these)
@@ -1304,19 +1385,19 @@ def oracle_local(ctx, stream, case, obs, post_refs, post_missing, prefix="local"
         else:
             rep_ok = not obs["raised"] and name in rs and rs[name] is None
         stale = c != old
-        if post != target:
+        if not holds(post_refs, new, name):
             all_hold = False
         if stale:
-            if post != pre:
+            if not same(name, new):
                 ctx.oracle_fail(stream, brief, f"{name!r}: current {c!r} differs from the old value {old!r} the client read, yet the ref changed to {post!r}",
                                 prefix + "-stale-old-applied")
             if rep_ok:
                 ctx.oracle_fail(stream, brief, f"{name!r}: current {c!r} differs from the old value {old!r} the client read, yet success is reported",
                                 prefix + "-stale-old-reported-ok")
         else:
-            if rep_ok and post != target:
+            if rep_ok and not holds(post_refs, new, name):
                 ctx.oracle_fail(stream, brief, f"{name!r}: success reported but the ref holds {post!r}, not {target!r}", prefix + "-ok-but-not-applied")
-            if post == target and not rep_ok:
+            if holds(post_refs, new, name) and not rep_ok:
                 ctx.oracle_fail(stream, brief, f"{name!r}: the ref holds the requested {target!r} but the status is {rs.get(name)!r}",
                                 prefix + "-applied-but-not-reported")
     if case.get("atomic") and not all_hold and not untouched and prefix != "gitsrv":
@@ -1325,8 +1406,8 @@ def oracle_local(ctx, stream, case, obs, post_refs, post_missing, prefix="local"
                             "local-atomic-partial-apply-race" if raced else "local-atomic-partial-apply")
         else:
             for name, new in cmds:
-                if post_refs.get(name) != (None if new == ZERO40 else new):
-                    why = "stale-old" if cur.get(name, ZERO40) != snap.get(name, ZERO40) else "unexplained"
+                if not holds(post_refs, new, name):
+                    why = "stale-old" if (resolve(cur, name)[1] or ZERO40) != snap.get(name, ZERO40) else "unexplained"
                     ctx.oracle_fail(stream, brief, f"atomic push applied some updates but not {name!r}", f"{prefix}-atomic-partial-apply-{why}")
 
 
@@ -1393,7 +1474,7 @@ FIXED_LOCAL = [
 
 def compare_local_batch(ctx, lines, metas):
     outs = ctx.driver.batch(lines)
-    for (stream, case, real), mo in zip(metas, outs):
+    for (stream, case, real, mnames), mo in zip(metas, outs):
         ctx.count(stream, json.dumps(case, sort_keys=True), True, None)
         for t in case.get("tags", []):
             ctx.hist.setdefault(stream, {})
@@ -1402,7 +1483,12 @@ def compare_local_batch(ctx, lines, metas):
         if d is None:
             ctx.disagree(stream, case, mo, real, "local")
             continue
-        refs = ",".join(sorted(d["refs"].split(","))) if d["refs"] != "-" else "-"
+        refs = ",".join(sorted(d["refs"].split(","), key=lambda it: unhx(it.split("=")[0]))) if d["refs"] != "-" else "-"
+        if d["status"] not in ("early", "-"):
+            # commanded names back in place of the reduced ones (positional)
+            ents = d["status"].split(",")
+            if len(ents) == len(case["cmds"]):
+                d["status"] = ",".join(hx(c[0].encode("latin-1")) + ":" + e.split(":", 1)[1] for c, e in zip(case["cmds"], ents))
         model = f"status={d['status']} refs={refs} instore={d['instore']}"
         if model != real:
             ctx.disagree(stream, case, model, real, "local")
@@ -1495,7 +1581,7 @@ def e2e_push(ctx, sd: ServerDir, case: dict, server: str) -> dict:
     obs: dict = {"snap": None, "raised": None, "ref_status": None}
 
     def update_refs(refs):
-        obs["snap"] = {bytes(k): bytes(v) for k, v in refs.items() if k != b"HEAD" and not k.startswith(b"capabilities^")}
+        obs["snap"] = {bytes(k): bytes(v) for k, v in refs.items() if (k != b"HEAD" or uses_head(case)) and not k.startswith(b"capabilities^")}
         other = Repo(str(sd.path))
         try:
             for op in case.get("racer", []):
@@ -1508,7 +1594,7 @@ def e2e_push(ctx, sd: ServerDir, case: dict, server: str) -> dict:
             other.close()
         r2 = Repo(str(sd.path))
         try:
-            obs["cur"] = read_refs(r2)
+            obs["cur"] = read_refs(r2, uses_head(case))
             obs["cur_store"] = [i for i in candidate_ids_local(case) if in_store(r2, i)]
         finally:
             r2.close()
@@ -1536,13 +1622,12 @@ def e2e_push(ctx, sd: ServerDir, case: dict, server: str) -> dict:
 
 def run_e2e_case(ctx, sd, case, server, stream):
     st = case["state"]
-    sd.reset({k.encode("latin-1"): v.encode() for k, v in st["refs"].items()}, extra_store=st.get("extra", ()),
-             packed=st.get("packed"), loose_after={k.encode("latin-1"): v.encode() for k, v in st.get("loose_after", {}).items()})
+    sd.reset_state(st)
     obs = e2e_push(ctx, sd, case, server)
     repo = sd.open()
     try:
-        post_refs = read_refs(repo)
-        post_missing = {n: v for n, v in post_refs.items() if not in_store(repo, v)}
+        post_refs = read_refs(repo, uses_head(case))
+        post_missing = {n: v for n, v in post_refs.items() if not v.startswith(SYMREF) and not in_store(repo, v)}
     finally:
         repo.close()
     ctx.count(stream, json.dumps(case, sort_keys=True), True, ("raced" if case.get("racer") else "quiet") + (":atomic" if case.get("atomic") else ""))
@@ -1553,7 +1638,8 @@ def run_e2e_case(ctx, sd, case, server, stream):
     rc, out = core.sh(["git", "--git-dir", str(sd.path), "for-each-ref", "--format=%(refname) %(objectname)"], env=core.clean_env())
     if rc == 0:
         gitrefs = {ln.split(" ")[0].encode(): ln.split(" ")[1].encode() for ln in out.splitlines() if " " in ln and not ln.startswith(("warning", "error"))}
-        if gitrefs != post_refs and not post_missing:
+        plain = {k: v for k, v in post_refs.items() if k != b"HEAD"}
+        if gitrefs != plain and not post_missing and not any(v.startswith(SYMREF) for v in plain.values()):
             ctx.oracle_fail(stream, {"case": case, "git": {k.decode(): v.decode() for k, v in gitrefs.items()}},
                             "C git reads different refs from the server repository than dulwich does", "readback-differs")
     oracle_local(ctx, stream, case, obs, post_refs, post_missing, prefix="wire" if server == "dulwich" else "gitsrv")
@@ -1618,8 +1704,7 @@ def _stream_git_push(ctx, sd, n):
             continue
         atomic = rng.random() < 0.4
         case = {"path": "git-push", "state": st, "specs": specs, "atomic": atomic}
-        sd.reset({k.encode("latin-1"): v.encode() for k, v in st["refs"].items()}, extra_store=st.get("extra", ()),
-                 packed=st.get("packed"), loose_after={k.encode("latin-1"): v.encode() for k, v in st.get("loose_after", {}).items()})
+        sd.reset_state(st)
         repo = sd.open()
         pre_refs = read_refs(repo)
         repo.close()
@@ -1745,6 +1830,8 @@ def _run_corpus(ctx, sd, ex):
             run_wire_case(ctx, sd, case, "corpus", wl, wm)
         elif case["path"] == "local":
             run_local_case(ctx, sd, case, ex, "corpus", ll, lm)
+        elif case["path"] == "race":
+            _race_explicit(ctx, case, "corpus")
     compare_wire_batch(ctx, wl, wm)
     compare_local_batch(ctx, ll, lm)
 
@@ -1763,14 +1850,18 @@ def _extract_or_fallback(ctx):
 def run(ctx: core.Ctx):
     ex = _extract_or_fallback(ctx)
     ctx.assumptions += [
-        "ref names of commands are direct refs (no symrefs such as HEAD among the commanded names); SHA-1 repositories",
+        "SHA-1 repositories. Symbolic refs among the commanded names (refs/heads/sym, a two-link chain, HEAD; dangling or not) are "
+        "driven through the real handler / local path / real client with the oracle, and compared with the Lean model through a "
+        "reduction (an update acts on the last name of the chain, a deletion on the name itself whose model value is the raw "
+        "`ref: …` content); symref loops and old values that are not hex ids (rejected by handle() before _apply_pack) are not generated",
+        "two racing pushers: every schedule with at most 2 pre-emptions (thorough: plus a capped sample with 3) of two real pushes at "
+        "the system calls on the ref file, its lock, packed-refs and its lock; ref stored loose, packed-only, or both",
         "update hooks never decline with the literal message 'ok' (hypothesis HookSane of the theorems; the shell hook's "
         "message always starts with 'update hook exited with status')",
         "object-store behaviour (add_thin_pack / add_pack_data) is a parameter of the model: the ids a well-formed pack adds, or "
         "the class of the exception raised, are observed on the real call and fed to the model (C04/C05 are about that step)",
         "I/O failures of the ref container are explored through directory/file conflicts and injected KeyError only",
-        "two racing pushers are explored as one deterministic schedule (the second pusher acts between the first one's read of "
-        "the refs and its compare-and-swap); finer interleavings belong to C08",
+        "the `local`/`e2e` streams additionally place a second pusher between the client's read of the refs and its updates",
     ]
     ctx.extra_cov["source_behaviour"] = {k: ex.get(k) for k in ("cas_result_used", "new_object_checked", "atomic_validates_old", "atomic_validates_new",
                                                                 "local_checks_new", "local_precheck_checks_new",
@@ -1787,10 +1878,14 @@ def run(ctx: core.Ctx):
     _stream_wire(ctx, sd, ctx.budget(1200))
     _stream_local(ctx, sd, ex, ctx.budget(500))
     _stream_parser(ctx, ctx.budget(1500))
+    _stream_symref(ctx, sd, ex, ctx.budget(300), ctx.budget(150), ctx.budget(15))
     _stream_e2e(ctx, sd, ctx.budget(40), ctx.budget(8, mult=6))
     _stream_git_push(ctx, sd, ctx.budget(5, mult=8))
     ctx.notes.append("e2e.git-server checks only what the dulwich client reports against the refs C git's receive-pack left behind; "
                      "git 2.39.5 itself applies an --atomic push partially when one command is refused for missing objects (observed)")
+    _stream_race(ctx, race_scenarios(ctx.thorough), 2, 100000)
+    if ctx.thorough:
+        _stream_race(ctx, race_scenarios(True), 3, 1500, stream="race.bound3")
     ctx.extra_cov["third_party"] = {"git_server_pushes": ctx.streams.get("e2e.git-server", 0), "git_client_pushes": ctx.streams.get("e2e.git-push", 0)}
 
 
@@ -1836,6 +1931,10 @@ def search(ctx: core.Ctx):
     if ctx.oracle_failures:
         return
     rng = ctx.rng
+    for c in [expand(c_) for c_ in FIXED_SYMREF_WIRE] + [gen_symref_wire_case(rng) for _ in range(ctx.budget(600, mult=4))]:
+        run_wire_case(ctx, sd, c, "search.symref", lines, metas)
+        if len(ctx.oracle_failures) > 3:
+            return
     for _ in range(ctx.budget(3000, mult=4)):
         run_wire_case(ctx, sd, gen_wire_case(rng), "search.wire", lines, metas)
         if len(ctx.oracle_failures) > 3:
@@ -1857,7 +1956,12 @@ def replay(ctx: core.Ctx, data: dict) -> int:
     ex = _extract_or_fallback(ctx)
     sd = ServerDir(ctx.scratch / "srv-replay")
     ctx.known = []          # a replay reports every failure, listed or not
-    if case.get("path") == "wire":
+    if case.get("path") == "race":
+        r = _race_explicit(ctx, case, "replay")
+        print("replay race:", case["sc"]["name"], "schedule", "".join(case["schedule"]))
+        for f in r["fails"]:
+            print("  A:", f["run"]["A"], "\n  B:", f["run"]["B"], "\n  final:", f["run"]["final"], "\n  events:", " ".join(f["run"]["events"]))
+    elif case.get("path") == "wire":
         case = expand(case)
         obs, pre, post = run_wire_case(ctx, sd, case, "replay", [], [])
         print("replay wire: handler raised:", obs["raised"], "| client statuses:", obs["parsed"])
@@ -1879,3 +1983,472 @@ def replay(ctx: core.Ctx, data: dict) -> int:
         return 1
     print("replay: property holds on this case")
     return 0
+
+
+# ------------------------------------------------------------------------------------------------
+# symbolic refs among the commanded names (refs/heads/sym -> ..., a chain, HEAD): an update goes through the symref
+# (set_if_equals follows), a deletion names the symref itself and compares its raw content (remove_if_equals does
+# not follow) — while the client always names the advertised, resolved value.
+
+SYM1, SYM2 = "refs/heads/sym", "refs/heads/sym2"
+
+
+def st_resolve(st: dict, name: str):
+    """resolved object id of `name` in a generated state (None if absent/dangling)"""
+    raw = {k.encode("latin-1"): v.encode("latin-1") for k, v in {**st["refs"], **st.get("loose_after", {})}.items()}
+    for k, t in st.get("symrefs", {}).items():
+        raw[k.encode("latin-1")] = SYMREF + t.encode("latin-1")
+    raw[b"HEAD"] = SYMREF + (st.get("head") or "refs/heads/main").encode("latin-1")
+    v = resolve(raw, name.encode("latin-1"))[1]
+    return v.decode() if v else None
+
+
+def gen_symref_state(rng) -> dict:
+    st = gen_state(rng)
+    st["refs"].pop(DF_PARENT.decode(), None)
+    st.get("loose_after", {}).pop(DF_PARENT.decode(), None)
+    names = [n.decode() for n in NAMES]
+    st["symrefs"] = {SYM1: rng.choice(names)}
+    if rng.random() < 0.3:
+        st["symrefs"][SYM2] = SYM1
+    if rng.random() < 0.6:
+        st["head"] = rng.choice(names + [SYM1])
+    return st
+
+
+def _sym_cmd_parts(rng, st, name, tags):
+    """(old, new, pack idx or None) for a command on `name`, the old value being what an honest or a stale client names"""
+    cur = st_resolve(st, name)
+    r = rng.random()
+    if r < 0.7:
+        old = cur or ZERO40.decode()
+        tags.append("old-resolved")
+    elif r < 0.85:
+        old = rng.choice([cid(i).decode() for i in range(4) if cid(i).decode() != cur])
+        tags.append("old-stale")
+    else:
+        old = ZERO40.decode()
+        tags.append("old-zero")
+    r = rng.random()
+    if r < 0.4:
+        return old, ZERO40.decode(), None
+    if r < 0.75:
+        return old, rng.choice([cid(i).decode() for i in BASE if cid(i).decode() != cur]), None
+    i = rng.choice([4, 5])
+    return old, cid(i).decode(), i
+
+
+def gen_symref_wire_case(rng) -> dict:
+    st = gen_symref_state(rng)
+    symnames = list(st["symrefs"]) + ["HEAD"]
+    plain = [n.decode() for n in NAMES]
+    rng.shuffle(plain)
+    n = rng.choice([1, 2, 2, 3])
+    names = [rng.choice(symnames)] + plain[: n - 1]
+    if n >= 2 and rng.random() < 0.25:
+        names[1] = rng.choice(symnames)
+    rng.shuffle(names)
+    names = list(dict.fromkeys(names))
+    cmds, pack, tags = [], set(), []
+    for name in names:
+        old, new, pk = _sym_cmd_parts(rng, st, name, tags)
+        if pk is not None:
+            pack.add(pk)
+        cmds.append([old, new, name])
+        if name in symnames:
+            tags.append("sym-delete" if new == ZERO40.decode() else "sym-update")
+            if name == "HEAD":
+                tags.append("via-HEAD")
+            if st_resolve(st, name) is None:
+                tags.append("sym-dangling")
+    caps = ["report-status"] + [c for c in ("side-band-64k", "delete-refs") if rng.random() < 0.4]
+    atomic = rng.random() < 0.55
+    if atomic:
+        caps.append("atomic")
+    case = {"path": "wire", "state": st, "cmds": cmds, "caps": caps, "pack": {"idx": sorted(pack), "variant": "ok"}}
+    case["tags"] = sorted(set(tags) | {f"n={len(cmds)}", "atomic" if atomic else "plain", "packed" if st.get("packed") else "loose"})
+    return case
+
+
+def gen_symref_local_case(rng) -> dict:
+    st = gen_symref_state(rng)
+    symnames = list(st["symrefs"]) + ["HEAD"]
+    plain = [n.decode() for n in NAMES]
+    rng.shuffle(plain)
+    n = rng.choice([1, 2, 2, 3])
+    names = list(dict.fromkeys([rng.choice(symnames)] + plain[: n - 1]))
+    rng.shuffle(names)
+    cmds, pack, tags = [], set(), []
+    for name in names:
+        _, new, pk = _sym_cmd_parts(rng, st, name, [])
+        if pk is not None:
+            pack.add(pk)
+        cmds.append([name, new])
+        if name in symnames:
+            tags.append("sym-delete" if new == ZERO40.decode() else "sym-update")
+    racer = []
+    if rng.random() < 0.4:
+        victim = rng.choice(names)
+        if victim not in symnames:
+            racer.append(["set", victim, cid(rng.choice(BASE)).decode()] if rng.random() < 0.7 else ["del", victim])
+            tags.append("raced")
+    atomic = rng.random() < 0.55
+    case = {"path": "local", "state": st, "cmds": cmds, "pack": sorted(pack), "atomic": atomic, "racer": racer}
+    case["tags"] = sorted(set(tags) | {f"n={len(cmds)}", "atomic" if atomic else "plain"})
+    return case
+
+
+FIXED_SYMREF_WIRE = [
+    # atomic: [update x; delete a symbolic ref naming the advertised (resolved) value]
+    {"path": "wire", "state": {"refs": {"refs/heads/m": "@1", "refs/heads/a": "@2"}, "symrefs": {SYM1: "refs/heads/m"}},
+     "cmds": [["@2", "@3", "refs/heads/a"], ["@1", "@z", SYM1]], "caps": ["report-status", "atomic"]},
+    {"path": "wire", "state": {"refs": {"refs/heads/m": "@1", "refs/heads/a": "@2"}, "symrefs": {SYM1: "refs/heads/m"}},
+     "cmds": [["@2", "@3", "refs/heads/a"], ["@1", "@z", SYM1]], "caps": ["report-status"]},
+    # update through a symref, through HEAD, through a chain; atomic and not
+    {"path": "wire", "state": {"refs": {"refs/heads/m": "@1", "refs/heads/a": "@2"}, "symrefs": {SYM1: "refs/heads/m"}},
+     "cmds": [["@2", "@3", "refs/heads/a"], ["@1", "@2", SYM1]], "caps": ["report-status", "atomic"]},
+    {"path": "wire", "state": {"refs": {"refs/heads/m": "@1"}, "symrefs": {SYM1: "refs/heads/m", SYM2: SYM1}, "head": SYM2},
+     "cmds": [["@1", "@2", "HEAD"]], "caps": ["report-status"]},
+    {"path": "wire", "state": {"refs": {"refs/heads/a": "@2"}, "symrefs": {SYM1: "refs/heads/m"}},
+     "cmds": [["@z", "@3", SYM1], ["@1", "@3", "refs/heads/a"]], "caps": ["report-status", "atomic"]},
+    {"path": "wire", "state": {"refs": {"refs/heads/m": "@1"}, "head": "refs/heads/m"},
+     "cmds": [["@1", "@z", "HEAD"], ["@z", "@2", "refs/heads/b"]], "caps": ["report-status", "atomic"]},
+]
+
+
+def _stream_symref(ctx, sd, ex, n_wire, n_local, n_e2e):
+    rng = ctx.rng
+    lines, metas = [], []
+    for case in [expand(c) for c in FIXED_SYMREF_WIRE] + [gen_symref_wire_case(rng) for _ in range(n_wire)]:
+        case.setdefault("tags", ["fixed"])
+        obs, pre, post = run_wire_case(ctx, sd, case, "wire.symref", lines, metas)
+        if sum(1 for s_ in ctx.samples if s_.get("stream") == "wire.symref") < 1 and len(case["cmds"]) >= 2 and "atomic" in case["caps"]:
+            ctx.sample({"stream": "wire.symref", "case": case, "client_status": repr(obs["parsed"]),
+                        "refs_before": {k.decode(): v.decode() for k, v in pre.items()},
+                        "refs_after": {k.decode(): v.decode() for k, v in post.items()}})
+    compare_wire_batch(ctx, lines, metas)
+    lines, metas = [], []
+    for _ in range(n_local):
+        run_local_case(ctx, sd, gen_symref_local_case(rng), ex, "local.symref", lines, metas)
+    compare_local_batch(ctx, lines, metas)
+    for _ in range(n_e2e):
+        run_e2e_case(ctx, sd, gen_symref_local_case(rng), "dulwich", "e2e.symref")
+
+
+# ------------------------------------------------------------------------------------------------
+# two pushers racing on the same ref: two REAL pushes (wire handler / LocalGitClient) against one bare disk repository
+# under harness/sched.py's deterministic scheduler; yield points are the system calls on the ref file, its lock,
+# packed-refs and its lock.  Runs in a worker process (the scheduler patches os.* for the whole process).
+
+RACE_REF = b"refs/heads/m"
+_RACE_RELEVANT = None
+
+
+def _race_sched_class():
+    import re
+    from .. import sched
+    global _RACE_RELEVANT
+    if _RACE_RELEVANT is None:
+        _RACE_RELEVANT = re.compile(r"^(packed-refs|refs/heads/m)(\.lock)?$")
+
+    class RaceSched(sched.Scheduler):
+        def _handle(self, who, name, paths, do):
+            if name != "start":
+                if name in ("mkdir", "makedirs", "rmdir", "chmod", "utime", "listdir", "scandir", "access"):
+                    return do()
+                if not paths or not all(isinstance(p_, str) and _RACE_RELEVANT.match(p_) for p_ in paths):
+                    return do()
+            return super()._handle(who, name, paths, do)
+    return RaceSched
+
+
+def _race_reset(root: str, sc: dict):
+    """ref m = c1, stored loose / packed-only (no loose file) / both (packed holds the older c0)"""
+    import glob
+    shutil.rmtree(os.path.join(root, "refs"), ignore_errors=True)
+    os.makedirs(os.path.join(root, "refs", "heads"))
+    os.makedirs(os.path.join(root, "refs", "tags"))
+    for f in glob.glob(os.path.join(root, "*.lock")) + glob.glob(os.path.join(root, "objects", "pack", "*")) + [os.path.join(root, "packed-refs")]:
+        try:
+            os.remove(f)
+        except OSError:
+            pass
+    shutil.rmtree(os.path.join(root, "logs"), ignore_errors=True)
+    other = b"%s refs/heads/zz\n" % cid(0)
+    if sc["storage"] in ("packed", "both"):
+        v = cid(1) if sc["storage"] == "packed" else cid(0)
+        with open(os.path.join(root, "packed-refs"), "wb") as f:
+            f.write(b"# pack-refs with: peeled fully-peeled sorted \n" + b"%s refs/heads/m\n" % v + other)
+    if sc["storage"] in ("loose", "both"):
+        with open(os.path.join(root, "refs", "heads", "m"), "wb") as f:
+            f.write(cid(1) + b"\n")
+
+
+def _race_read(root: str):
+    """raw value of the ref, read by the harness itself: the loose file wins over packed-refs"""
+    try:
+        with open(os.path.join(root, "refs", "heads", "m"), "rb") as f:
+            return f.read().strip() or None
+    except OSError:
+        pass
+    try:
+        with open(os.path.join(root, "packed-refs"), "rb") as f:
+            for ln in f.read().splitlines():
+                if ln.endswith(b" refs/heads/m") and not ln.startswith(b"#"):
+                    return ln.split(b" ")[0]
+    except OSError:
+        pass
+    return None
+
+
+def _race_actor(root: str, spec: dict, out: dict):
+    """one pusher: {"path": wire|local, "old": id, "new": id or zero, "repack": bool} -> out[ok, old, error]"""
+    from dulwich.repo import Repo
+    path, new = spec["path"], spec["new"].encode()
+
+    def body():
+        repo = Repo(root)
+        try:
+            if path == "wire":
+                from dulwich import client as C
+                from dulwich.protocol import Protocol, pkt_line
+                from dulwich.server import DictBackend, ReceivePackHandler
+                old = spec["old"].encode()
+                out["old"] = old
+                inp = io.BytesIO(pkt_line(old + b" " + new + b" " + RACE_REF + b"\0report-status") + pkt_line(None) + (b"" if new == ZERO40 else pack_bytes([])))
+                outb = io.BytesIO()
+                try:
+                    ReceivePackHandler(DictBackend({"/": repo}), ["/"], Protocol(inp.read, outb.write), stateless_rpc=True).handle()
+                except Exception as e:      # the handler died (e.g. FileLocked): the client sees a hang-up, no success
+                    out["error"] = type(e).__name__
+                    out["ok"] = False
+                else:
+                    p = C.ReportStatusParser()
+                    f = io.BytesIO(outb.getvalue())
+                    for pkt in Protocol(f.read, lambda b_: None).read_pkt_seq():
+                        p.handle_packet(pkt)
+                    try:
+                        st = dict(p.check())
+                    except Exception as e:
+                        st = {}
+                        out["error"] = "status:" + type(e).__name__
+                    out["ok"] = RACE_REF in st and st[RACE_REF] is None
+                    out["msg"] = st.get(RACE_REF)
+            else:
+                from dulwich.client import LocalGitClient
+                from dulwich.pack import pack_objects_to_data
+
+                def update_refs(refs):
+                    out["old"] = bytes(refs.get(RACE_REF, ZERO40))
+                    return {RACE_REF: new}
+                try:
+                    res = LocalGitClient().send_pack(root, update_refs, lambda have, want, **kw: pack_objects_to_data([]))
+                    out["ok"] = (res.ref_status or {}).get(RACE_REF) is None
+                    out["msg"] = (res.ref_status or {}).get(RACE_REF)
+                except Exception as e:
+                    out["error"] = type(e).__name__
+                    out["ok"] = False
+            if spec.get("repack"):
+                try:
+                    repo.refs.pack_refs(all=True)
+                except Exception as e:
+                    out["repack_error"] = type(e).__name__
+        finally:
+            repo.close()
+    return body
+
+
+def _race_run(root: str, sc: dict, prefix: list):
+    RaceSched = _race_sched_class()
+    _race_reset(root, sc)
+    s = RaceSched(root, timeout=30)
+    outs = {"A": {}, "B": {}}
+    s.spawn("A", _race_actor(root, sc["A"], outs["A"]))
+    s.spawn("B", _race_actor(root, sc["B"], outs["B"]))
+    choices, pend = [], []
+    pre = list(prefix)
+
+    def choose(pending, history):
+        ps = sorted(pending)
+        pend.append(ps)
+        k = len(choices)
+        if k < len(pre) and pre[k] in pending:
+            c = pre[k]
+        elif choices and choices[-1] in pending:
+            c = choices[-1]
+        else:
+            c = ps[0]
+        choices.append(c)
+        return c
+    ev = s.run(choose)
+    for n in ("A", "B"):
+        if s.results[n].exc is not None:
+            outs[n].setdefault("error", "actor:" + type(s.results[n].exc).__name__)
+            outs[n].setdefault("ok", False)
+    final = _race_read(root)
+    return {"choices": choices, "pend": pend, "final": final.decode() if final else None,
+            "A": {k: (v.decode() if isinstance(v, bytes) else v) for k, v in outs["A"].items()},
+            "B": {k: (v.decode() if isinstance(v, bytes) else v) for k, v in outs["B"].items()},
+            "events": [f"{e[0]}:{e[1]}:{'+'.join(map(str, e[2]))}:{e[3]}" for e in ev]}
+
+
+def _race_preemptions(choices, pend):
+    n = 0
+    for i in range(1, len(choices)):
+        if choices[i] != choices[i - 1] and choices[i - 1] in pend[i]:
+            n += 1
+    return n
+
+
+def race_verdict(sc: dict, run: dict):
+    """The property's words for two racing pushers: the pushers answered ok must be explainable one after the other —
+    each one's old value was current when its write happened — and the ref must end up at the value the last of them
+    wrote (no lost update, a deleted ref does not come back); a pusher not answered ok has changed nothing."""
+    v0 = cid(1).decode()
+    ops = []
+    for n in ("A", "B"):
+        o = run[n]
+        if o.get("ok"):
+            ops.append((n, o.get("old"), sc[n]["new"]))
+    z = ZERO40.decode()
+
+    def explain(order):
+        v = v0
+        for _, old, new in order:
+            if (v or z) != old:
+                return False
+            v = None if new == z else new
+        return v == run["final"]
+    import itertools
+    if any(explain(p_) for p_ in itertools.permutations(ops)):
+        return None
+    repack = sc["A"].get("repack") or sc["B"].get("repack")
+    if len(ops) == 2 and ops[0][1] == ops[1][1] and ops[0][2] != ops[1][2]:
+        return "race-lost-update", f"both pushers were answered ok from the same old value {ops[0][1]}; the ref ends at {run['final']}"
+    dele = [o for o in ops if o[2] == z]
+    if dele and run["final"] is not None and len(ops) == 1:
+        return ("race-deleted-ref-came-back-after-pack-refs" if repack else "race-deleted-ref-came-back",
+                f"pusher {dele[0][0]} was answered ok for deleting the ref, which ends at {run['final']}")
+    if not ops and run["final"] != v0:
+        return "race-rejected-but-changed", f"no pusher was answered ok, yet the ref went from {v0} to {run['final']}"
+    return "race-ok-unexplained", f"answered ok: {ops}; the ref went from {v0} to {run['final']}: no order of the successful pushes explains it"
+
+
+def impl_race(a):
+    """Explore schedules of one scenario: depth-first over the choice points with at most `bound` pre-emptions
+    (at most `max` runs; a spread sample when truncated).  Returns the failing runs and counters."""
+    import random
+    import tempfile
+    sc, bound, mx = a["sc"], a["bound"], a.get("max", 100000)
+    root = a["root"]
+    if not os.path.exists(os.path.join(root, "objects")):
+        from dulwich.repo import Repo
+        r = Repo.init_bare(root, mkdir=not os.path.exists(root))
+        for i in range(6):
+            for o in pool()[i]:
+                r.object_store.add_object(o)
+        r.close()
+    rng = random.Random(a.get("seed", 0))
+    if a.get("explicit") is not None:
+        run = _race_run(root, sc, a["explicit"])
+        v = race_verdict(sc, run)
+        return {"runs": 1, "truncated": False, "fails": [{"verdict": v, "run": run}] if v else [], "steps": len(run["choices"]), "outcomes": {}}
+    stack, n, fails, outcomes, truncated, steps = [[]], 0, [], {}, False, 0
+    while stack:
+        if n >= mx:
+            truncated = True
+            break
+        prefix = stack.pop(rng.randrange(len(stack)) if len(stack) > 64 else -1)
+        run = _race_run(root, sc, prefix)
+        n += 1
+        steps = max(steps, len(run["choices"]))
+        key = f"A={'ok' if run['A'].get('ok') else run['A'].get('error') or 'ng'} B={'ok' if run['B'].get('ok') else run['B'].get('error') or 'ng'}"
+        outcomes[key] = outcomes.get(key, 0) + 1
+        v = race_verdict(sc, run)
+        if v and len(fails) < 3:
+            fails.append({"verdict": v, "run": {k: run[k] for k in ("choices", "final", "A", "B", "events")}})
+        for i in range(len(prefix), len(run["choices"])):
+            for b_ in run["pend"][i]:
+                if b_ != run["choices"][i]:
+                    newp = run["choices"][:i] + [b_]
+                    if _race_preemptions(newp, run["pend"]) <= bound:
+                        stack.append(newp)
+    return {"runs": n, "truncated": truncated, "fails": fails, "steps": steps, "outcomes": outcomes}
+
+
+def race_scenarios(thorough: bool) -> list:
+    z = ZERO40.decode()
+    out = []
+    for storage in ("loose", "packed", "both"):
+        for rival_new, rname in ((cid(3).decode(), "update"), (z, "delete")):
+            for repack in (False, True):
+                for pa, pb in (("wire", "wire"), ("local", "wire"), ("wire", "local")) if thorough else (("wire", "wire"), ("local", "wire")):
+                    out.append({"storage": storage, "name": f"{storage}:{pa}-vs-{pb}:{rname}{'+repack' if repack else ''}",
+                                "A": {"path": pa, "old": cid(1).decode(), "new": cid(2).decode()},
+                                "B": {"path": pb, "old": cid(1).decode(), "new": rival_new, "repack": repack}})
+    # the pusher deletes, the rival updates and repacks (a reported deletion must not come back)
+    for storage in ("loose", "packed", "both"):
+        out.append({"storage": storage, "name": f"{storage}:wire-delete-vs-wire-update+repack",
+                    "A": {"path": "wire", "old": cid(1).decode(), "new": z},
+                    "B": {"path": "wire", "old": cid(1).decode(), "new": cid(3).decode(), "repack": True}})
+        out.append({"storage": storage, "name": f"{storage}:wire-stale-vs-wire-update",
+                    "A": {"path": "wire", "old": cid(4).decode(), "new": cid(2).decode()},
+                    "B": {"path": "wire", "old": cid(1).decode(), "new": cid(3).decode(), "repack": False}})
+    return out
+
+
+def _race_explicit(ctx, case, stream):
+    """one scenario under one explicit schedule (corpus / replay)"""
+    w = core.Worker("default", mem_mb=2048)
+    try:
+        rep = w.ask({"mod": MOD, "op": "race", "args": {"sc": case["sc"], "bound": 0, "root": str(ctx.scratch / "race-x"),
+                                                       "explicit": case["schedule"]}}, timeout=300)
+    finally:
+        w.close()
+    if "r" not in rep:
+        raise core.InfraError(f"race worker failed: {rep}")
+    ctx.count(stream, json.dumps(case, sort_keys=True), True, "race")
+    for f in rep["r"]["fails"]:
+        cls, what = f["verdict"]
+        ctx.oracle_fail(stream, {"case": case, "run": f["run"]}, f"{case['sc']['name']}: {what}", cls)
+    return rep["r"]
+
+
+def _stream_race(ctx, scenarios, bound, max_runs, stream="race", nworkers=6):
+    """Fan the scenarios out over a few worker processes (each explores its scenarios' schedules sequentially)."""
+    import concurrent.futures as cf
+    workers = [core.Worker("default", mem_mb=2048) for _ in range(min(nworkers, len(scenarios)))]
+    roots = [str(ctx.scratch / f"race{i}") for i in range(len(workers))]
+
+    def job(k):
+        w, root = workers[k], roots[k]
+        res = []
+        for sc in scenarios[k::len(workers)]:
+            rep = w.ask({"mod": MOD, "op": "race", "args": {"sc": sc, "bound": bound, "max": max_runs, "root": root, "seed": ctx.seed}}, timeout=1200)
+            res.append((sc, rep))
+        return res
+    try:
+        with cf.ThreadPoolExecutor(len(workers)) as ex:
+            results = [r for rs in ex.map(job, range(len(workers))) for r in rs]
+    finally:
+        for w in workers:
+            w.close()
+    total = 0
+    for sc, rep in results:
+        if "r" not in rep:
+            raise core.InfraError(f"race worker failed on {sc['name']}: {rep}")
+        r = rep["r"]
+        total += r["runs"]
+        ctx.count(stream, sc["name"], True, None)
+        ctx.evaluations += r["runs"] - 1
+        ctx.streams[stream] = ctx.streams.get(stream, 0) + r["runs"] - 1
+        h = ctx.hist.setdefault(stream, {})
+        for k, v in r["outcomes"].items():
+            h[f"{sc['storage']}:{k}"] = h.get(f"{sc['storage']}:{k}", 0) + v
+        if r["truncated"]:
+            h["truncated-scenarios"] = h.get("truncated-scenarios", 0) + 1
+        for f in r["fails"]:
+            cls, what = f["verdict"]
+            ctx.oracle_fail(stream, {"case": {"path": "race", "sc": sc, "schedule": f["run"]["choices"]}, "run": f["run"]},
+                            f"{sc['name']}: {what}", cls)
+    ctx.extra_cov.setdefault("race", {})[stream] = {"scenarios": len(scenarios), "schedules": total, "preemption_bound": bound, "max_runs_per_scenario": max_runs}
